@@ -104,6 +104,49 @@ def run(ck):
                 k = "index-narrowed-before-bounds-check-32bit" if (pw == 32 and meta[1][1] == 64 and i_old) else "index-check-%s-%d" % (name, pw)
                 ck.violation(k, "IR of `%s` for %d-bit int lets (len, index) = %s through / rejects it wrongly (model evaluation of the emitted IR; 32-bit code cannot run here)" % (meta[2], pw, w),
                              {"function": meta[2], "int_bits": pw, "len_index_witness": w, "ir_term": term})
+    # ---------- T2 for FitIntSize (bounds of slice expressions / make wider than int) ----------
+    ffs = [("mk_" + t[0], "func mk_%s(n %s) []int32 { return make([]int32, n) }" % (t[0], t[0]), t) for t in INTS]
+    d2 = os.path.join(ck.work, "irfit")
+    e2e.write_module(d2, {"main.go": "package main\n\n" + "\n".join(s for _, s, _ in ffs) + "\n\nfunc main() {}\n"})
+    fterms, funtrans = [], []
+    for pw, args in ((64, []), (32, ["-goos", "linux", "-goarch", "arm"])):
+        rc, ir = vlib.sh([gen] + args + ["."], cwd=d2, env=L.env(), timeout=600)
+        if rc != 0:
+            ck.correspondence_broken("verifgen-run-fit-%d" % pw, ir[-1500:])
+            continue
+        fns = ll2v.split_functions(ir)
+        for name, src, t in ffs:
+            f = fns.get("verifprog." + name)
+            for argidx in (0, 1):
+                term, why = (None, "missing") if f is None else ll2v.translate_call_operand(f[0], f[1], "MakeSlice", argidx)
+                if term is None:
+                    funtrans.append((name, pw, why))
+                elif argidx == 0:
+                    fterms.append((name, pw, "(%s, %d)" % (ity(t), pw), term, src))
+    fbadf, fbado = set(), set()
+    if fterms:
+        text = "From LLGoV Require Import C03.Model.\nLocal Open Scope Z_scope.\nDefinition all_ir : list ((ity * Z) * func) := [\n" + \
+            ";\n".join("(%s, %s)" % (k, t) for _, _, k, t, _ in fterms) + "\n].\n" + \
+            "Fixpoint idx (fixed : bool) (n : N) (l : list ((ity * Z) * func)) : list N := match l with [] => [] | (k, f) :: r => if func_eqb f (recipe_fit fixed (fst k) (snd k)) then idx fixed (N.succ n) r else n :: idx fixed (N.succ n) r end.\n" + \
+            "Definition BADF := Eval vm_compute in idx true 0%N all_ir.\nPrint BADF.\nDefinition BADO := Eval vm_compute in idx false 0%N all_ir.\nPrint BADO.\n"
+        rc, out = ck.coq_run(text, "c03_fit")
+        mf = re.search(r"BADF\s*=\s*\[(.*?)\]\s*:", out, re.S)
+        mo = re.search(r"BADO\s*=\s*\[(.*?)\]\s*:", out, re.S)
+        if rc != 0 or not mf or not mo:
+            ck.correspondence_broken("fit-obligation-eval", out[-1500:])
+        else:
+            fbadf = {int(x) for x in re.findall(r"\d+", mf.group(1))}
+            fbado = {int(x) for x in re.findall(r"\d+", mo.group(1))}
+    ck.obligations.append(("gen_fitintsize_ir_matches_recipe (%d functions, amd64 + linux/arm)" % len(fterms), not fbadf and not funtrans,
+                           "vm_compute; mismatching: %s; untranslatable: %s" % ([(fterms[i][0], fterms[i][1]) for i in sorted(fbadf)][:8], funtrans[:4])))
+    if fbadf or funtrans:
+        ck.broken.append("obligation:gen_fitintsize_ir_matches_recipe " + ",".join("%s/%d" % (fterms[i][0], fterms[i][1]) for i in sorted(fbadf)[:10]))
+    for i in sorted(fbadf):
+        name, pw, key, term, src = fterms[i]
+        if i not in fbado and pw == 32:
+            ck.violation("slice-bound-narrowed-before-runtime-check-32bit",
+                         "IR of `%s` for 32-bit int narrows the 64-bit size with a plain trunc: make([]int32, int64(1)<<32+5) has length 5; a[0:int64(1)<<32+1] passes as a[0:1] (model: fit_int_truncation_refuted)" % src,
+                         {"function": src, "int_bits": pw, "ir_term": term, "witness": "n = 2^32 + 1"})
     ck.phase("T2 done")
 
     # ---------- E ----------
